@@ -265,6 +265,8 @@ class State:
                 if f[0] == "keys" and f[1] == c[1] and f[2] != c[2]:
                     return True
             return False
+        if k == "notkeys":
+            return self.holds(("keys", c[1], c[2]))
         if k == "nonempty":
             return is_lit(c[1]) and len(c[1][2]) == 0
         if k in ("hasattr", "nohasattr"):
